@@ -56,12 +56,13 @@ def parse_url(url: str) -> ParsedURL:
     if not url:
         raise ValueError("URL cannot be empty")
 
-    # urlparse() silently deletes TAB, CR and LF and strips leading control
+    # urlparse() silently deletes TAB, CR and LF anywhere and strips leading control
     # characters and spaces, so "gemini://exa\tmple.com/a\nb" would be read as a
-    # different URL from the one that was given. None of them is a URL character.
-    if any(ord(ch) <= 0x20 or ord(ch) == 0x7F for ch in url):
+    # different URL from the one that was given. Refuse exactly what it would alter
+    # (a space inside a path is passed through unchanged and stays acceptable).
+    if any(ch in "\t\r\n" for ch in url) or ord(url[0]) <= 0x20:
         raise ValueError(
-            f"Invalid URL (whitespace or control characters are not allowed): {url!r}"
+            f"Invalid URL (TAB, CR, LF or leading whitespace is not allowed): {url!r}"
         )
 
     # Parse the URL
@@ -87,7 +88,8 @@ def parse_url(url: str) -> ParsedURL:
             raise ValueError(f"Malformed IPv6 host: {url}")
 
     # Reject userinfo (per Gemini spec: userinfo portions are forbidden)
-    if parsed.username or parsed.password:
+    # (":@host" has the user-info ":" although both parts of it are empty)
+    if parsed.username or parsed.password or parsed.netloc.startswith(":@"):
         raise ValueError(f"URL must not contain userinfo (user:password): {url}")
 
     # Reject fragments (per Gemini spec: fragments cannot be included)
